@@ -222,7 +222,7 @@ def plan(tier: str) -> dict:
                 cases.append({"worker": worker, "case": {"kind": "ws", "carrier": carrier, "named": seqs,
                                                          "bad_kind": bad_kind}})
     return {
-        "runs": 4000 if tier == "quick" else 100000,
+        "runs": 4000 if tier == "quick" else 500000,
         "budget": 150 if tier == "quick" else 900,
         "cases": cases,
         "chunk": 8,
